@@ -494,7 +494,10 @@ pub fn run(args: &Args) {
         use crate::props::c10::pair::{Cfg, IceOpt, Knobs, Mix, Mode, Pair, wait_open};
         let rt = tokio::runtime::Builder::new_multi_thread().worker_threads(4).enable_all().build().unwrap();
         for variant in 0..2 {
-            let res: Result<Vec<usize>, String> = rt.block_on(async {
+            let late_flag = std::sync::Arc::new(std::sync::atomic::AtomicBool::new(false));
+            let lf = late_flag.clone();
+            let res: Result<Vec<usize>, String> = rt.block_on(async move {
+                let mut late_lost = false;
                 let cfg = Cfg { mode: Mode::WebRtc, mix: Mix::Data, bundle: 0, mux_require: true, ice: IceOpt::Full, latching: false, legacy: false, p_offers: true };
                 let mut p = Pair::create(cfg, &Knobs::default());
                 p.negotiate().await?;
@@ -503,6 +506,19 @@ pub fn run(args: &Args) {
                 let (odc, adc) = (p.off.dc.clone().ok_or("no offerer channel")?, p.ans.dc.clone().ok_or("no answerer channel")?);
                 wait_open(&odc, Duration::from_secs(5)).await?;
                 if variant == 1 { if let Some(t) = p.off.pc.verif_lc_sctp_transport() { let _ = t.close_data_channel(odc.id).await; } tokio::time::sleep(Duration::from_millis(100)).await; }
+                // RFC 8832 §6: the opener may send right after creating the channel (its OPEN is sent from a spawned task:
+                // the data must not overtake it) — the peer gets the channel and the message
+                if variant == 0 {
+                    let late = p.off.pc.create_data_channel("late", None).map_err(|e| format!("create late channel: {e}"))?;
+                    p.off.pc.send_data(late.id, b"sent right after create_data_channel").await.map_err(|e| format!("immediate send refused: {e}"))?;
+                    let pc = p.ans.pc.clone();
+                    let got = tokio::time::timeout(Duration::from_secs(4), async move {
+                        loop { match pc.recv().await { Some(rustrtc::PeerConnectionEvent::DataChannel(dc)) if dc.label == "late" => {
+                                loop { match dc.recv().await { Some(DataChannelEvent::Message(m)) => return m.as_ref() == b"sent right after create_data_channel", Some(_) => {}, None => return false } } }
+                            Some(_) => {}, None => return false } }
+                    }).await;
+                    if got != Ok(true) { late_lost = true; }
+                }
                 p.off.pc.close(); p.ans.pc.close();
                 tokio::time::sleep(Duration::from_millis(300)).await;
                 let mut counts = vec![];
@@ -511,8 +527,10 @@ pub fn run(args: &Args) {
                     while let Some(Some(ev)) = futures::FutureExt::now_or_never(tokio::task::unconstrained(dc.recv())) { if matches!(ev, DataChannelEvent::Close) { n += 1; } }
                     counts.push(n);
                 }
+                lf.store(late_lost, std::sync::atomic::Ordering::SeqCst);
                 Ok(counts)
             });
+            if late_flag.load(std::sync::atomic::Ordering::SeqCst) { run.fail("dcep:data-sent-right-after-create-lost", "pcclose-live 0", "a message sent immediately after create_data_channel on an established connection never reached the peer's new channel"); }
             match res {
                 Ok(counts) => {
                     if counts.iter().any(|n| *n > 1) { run.fail("close:more-than-once", &format!("pcclose-live {variant}"), &format!("connected PeerConnection pair closed: Close events [offerer, answerer] = {counts:?}")); }
